@@ -331,7 +331,7 @@ class _MacroFrame:
 
 class Expander:
     def __init__(self, files, binfiles, case_sensitive=False, has_attr=True, data_op='byt',
-                 max_lines=200000, max_iter=400, max_depth=60):
+                 max_lines=30000, max_iter=400, max_depth=60):
         self.files = files            # name -> text
         self.bin = binfiles           # name -> bytes
         self.cs = case_sensitive
